@@ -397,3 +397,15 @@ Proof.
   clear Lb. induction b as [|bk b IH]; [reflexivity|]. cbn [map combine existsb fst snd].
   rewrite asym_symmetric by auto. exact IH.
 Qed.
+
+(* ================================================================ func_get with optional arguments *)
+Lemma nth_repeat_lt {A} (a d : A) : forall m k, (k < m)%nat -> nth k (repeat a m) d = a.
+Proof. induction m as [|m IH]; intros [|k] H; cbn [repeat nth]; auto; try lia. apply IH. lia. Qed.
+(* default box [-1, 1]^d, explicit skip_out=True: a point outside by more than the tolerance gets the fill value *)
+Theorem get_opt_default_fill tol x A z k : (k < length x)%nat -> (k < length A)%nat ->
+  tol < -1 - nth k x 0 \/ tol < nth k x 0 - 1 -> func_get_opt OR tol [x] A None None z (Some true) = [z].
+Proof.
+  intros Hx HA H. unfold func_get_opt, func_get, get_skip. cbn [map]. f_equal.
+  apply (get_fill tol x A _ _ z k); rewrite ?repeat_length; auto.
+  rewrite !nth_repeat_lt by auto. unfold fm1. ror. exact H.
+Qed.
